@@ -992,3 +992,8 @@ package control
 //@   at call domainRoutingTracker).reset#1 assert a0 == c.core.domainRouting && calls("clearReloadDomainRoutingMap") == 1 && calls("replayDnsReloadCache") == 0
 //@   at call replayDnsReloadCache#1 assert calls("clearReloadDomainRoutingMap") == 1 && calls("domainRoutingTracker).reset") == 1
 //@   at return 4 assert calls("replayDnsReloadCache") == 1
+
+//@ func (*domainRoutingTracker).reset
+//@   dyncalls noeffect
+//@   modifies t.owners, t.ips
+//@   ensures t != nil ==> t.owners != nil && t.ips != nil && len(t.owners) == 0 && len(t.ips) == 0
